@@ -46,6 +46,19 @@ typedef tbb::concurrent_hash_map<int, Val, HC> HM;
 template <> struct Drv<HM> {
     static void cfg(bool) {}
     static void op(HM& m, int T, const std::string& o, int k) {
+        if (o == "erasea" || o == "erasear") {      // find with an accessor / const_accessor, then erase THROUGH it: two calls of the history
+            TR.emit("{\"e\":\"Inv\",\"t\":%d,\"op\":\"find\",\"k\":%d}", T, k);
+            HM::accessor a; HM::const_accessor ca; bool w = o == "erasea"; bool r = w ? m.find(a, k) : m.find(ca, k); int g = r ? (w ? a->second.g : ca->second.g) : 0;
+            TR.emit("{\"e\":\"Res\",\"t\":%d,\"r\":%d,\"m\":\"%s\",\"g\":%d}", T, r ? 1 : 0, r ? (w ? "W" : "R") : "N", g);
+            if (!r) return;
+            for (int i = 0; i < 2; i++) yield_point();
+            // the accessor interval ends where the erase call begins (erase releases the accessor itself); physically the element stays locked
+            TR.emit("{\"e\":\"Rel\",\"t\":%d,\"g\":%d}", T, g);
+            TR.emit("{\"e\":\"Inv\",\"t\":%d,\"op\":\"erase\",\"k\":%d}", T, k);
+            bool e = w ? m.erase(a) : m.erase(ca);
+            TR.emit("{\"e\":\"Res\",\"t\":%d,\"r\":%d,\"m\":\"N\",\"g\":0}", T, e ? 1 : 0);
+            return;
+        }
         const char* aop = (o == "ins" || o == "insw") ? "insert" : (o == "find" || o == "findw" || o == "findr") ? "find" : o == "erase" ? "erase" : "count";
         TR.emit("{\"e\":\"Inv\",\"t\":%d,\"op\":\"%s\",\"k\":%d}", T, aop, k);
         if (o == "ins") { HM::accessor a; bool r = m.insert(a, k); if (r) stamp(a->second, k); a.release(); TR.emit("{\"e\":\"Res\",\"t\":%d,\"r\":%d,\"m\":\"N\",\"g\":0}", T, r ? 1 : 0); }
@@ -91,7 +104,7 @@ template <> struct Drv<OS> : SetDrv<OS, false, true, false> {}; template <> stru
 template <> struct Drv<UM> : SetDrv<UM, false, false, true> {}; template <> struct Drv<OM> : SetDrv<OM, false, true, true> {};
 
 template <class C> static C* make() { return new C; }
-template <> HM* make<HM>() { return new HM(1); }            // 1 initial bucket request: growth thresholds are crossed within a few inserts
+template <> HM* make<HM>() { HM* m = new HM(1); cosched::track(&m->my_mask); return m; }            // 1 initial bucket request: growth thresholds are crossed within a few inserts
 template <> US* make<US>() { return new US(2); } template <> UMS* make<UMS>() { return new UMS(2); } template <> UM* make<UM>() { return new UM(2); }
 
 template <class C> static int run(int argc, char** argv, long failk) {
@@ -100,7 +113,7 @@ template <class C> static int run(int argc, char** argv, long failk) {
     N = (int)PROG.size(); long steps = 0, stuck = 0; vh::Timer tm; static const int dens[8] = {1, 3, 10, 40, -1, -2, -3, -5};
     for (int r = 0; r < n && stuck < 10; r++) {
         TR.begin_exec(); Drv<C>::cfg(failk > 0);
-        g_log_destroy = false; C* c = make<C>(); g_log_destroy = true; g_copies = 0; g_fail_copy = failk;
+        untrack_all(); g_log_destroy = false; C* c = make<C>(); g_log_destroy = true; g_copies = 0; g_fail_copy = failk;
         Sched S; S.stall_limit = 40000; S.log_schedule = true; focus_only(false);
         S.spawn(N, [&](int t) { for (auto& op : PROG[t]) { auto f = vh::split(op, ':'); Drv<C>::op(*c, t + 1, f[0], f.size() > 1 ? atoi(f[1].c_str()) : 0); } });
         int rc = S.run_random(seed0 + r, 4000000, dens[r % 8]); steps += S.steps;
